@@ -7,9 +7,18 @@
 (*                        <<identity, key>>), cfg.idcb: the server looks    *)
 (*                        the identity up (else one key serves everybody)   *)
 (*   cfg.acc              the client accepts the server's identity hint     *)
+(*   cfg.snicb            the server keeps per-server-name credentials      *)
+(*                        (validate_sni_call_back): cfg.snitable is its     *)
+(*                        <<name, key>> table, cfg.sni the name the client   *)
+(*                        asks for ("" = none).  A name the table does not   *)
+(*                        have ends the handshake; a name it has selects     *)
+(*                        that entry's key for the session - on the first    *)
+(*                        session that names it and on every later one.      *)
 (***************************************************************************)
 EXTENDS Naturals, Integers, Sequences, FiniteSets
-KeyFor(cfg) == IF cfg.idcb
+SniKeys(cfg) == {cfg.snitable[i][2] : i \in {j \in 1..Len(cfg.snitable) : cfg.snitable[j][1] = cfg.sni}}
+KeyFor(cfg) == IF cfg.snicb THEN SniKeys(cfg)
+               ELSE IF cfg.idcb
                THEN {cfg.table[i][2] : i \in {j \in 1..Len(cfg.table) : cfg.table[j][1] = cfg.cid}}
                ELSE IF Len(cfg.table) >= 1 THEN {cfg.table[1][2]} ELSE {}
 \* the handshake can complete: identity known to the server, same key on both sides, hint accepted by the client
